@@ -1,9 +1,308 @@
-//! C01 socket routes (filled in with the network peers).
+//! C01 socket routes: the bytes the clients put on the wire and the bytes the
+//! servers answer with, compared with the independent layout-table encoder.
+
 use crate::engine::*;
+use crate::ensure;
+use crate::gens::*;
+use crate::oracle::codec::{self, OHeader};
+use crate::peers::dws;
+use crate::peers::net::*;
+use crate::util::{block_on_mt as block_on, diff_msg};
+use proptest::prelude::*;
+use repe::message::Message;
+use repe::server::HandlerErased;
+use repe::{AsyncClient, AsyncServer, Client, RepeError, Router, Server, WebSocketClient, WebSocketServer};
+use serde::{Deserialize, Serialize};
 use serde_json::Value;
+use std::sync::Arc;
+use std::time::Duration;
+use tokio::io::{AsyncReadExt, AsyncWriteExt};
 
-pub fn run(_ctx: &Ctx, _rep: &Report) {}
+#[derive(Debug, Clone, Copy, Serialize, Deserialize, Hash, PartialEq, Eq)]
+pub enum Endpoint {
+    Client,
+    AsyncClient,
+    WsClient,
+    Server,
+    AsyncServer,
+    WsServer,
+}
 
-pub fn replay(sub: &str, _case: &Value) -> Result<(), Fail> {
-    Err(Fail::new("replay-unknown-sub", sub.to_string()))
+#[derive(Debug, Clone, Serialize, Deserialize, Hash, PartialEq, Eq)]
+pub struct NetCase {
+    pub endpoint: Endpoint,
+    pub notify: bool,
+    pub qf: u16,
+    pub bf: u16,
+    pub qlen: usize,
+    pub blen: usize,
+    pub seed: u64,
+    /// server side: fields the handler puts into its prepared response
+    pub version: u8,
+    pub resp_notify: u8,
+    pub reserved: u32,
+    pub resp_id: u64,
+    pub ec: u32,
+    /// server side: the handler sets its own response query of this length (0 = echo)
+    pub own_query: usize,
+}
+
+/// Erased handler returning a response prepared from a spec carried in the request body.
+struct Prepared;
+
+#[derive(Serialize, Deserialize)]
+struct Spec {
+    version: u8,
+    notify: u8,
+    reserved: u32,
+    id: u64,
+    qf: u16,
+    bf: u16,
+    ec: u32,
+    own_query: usize,
+    blen: usize,
+    seed: u64,
+}
+
+impl HandlerErased for Prepared {
+    fn handle(&self, req: &Message) -> Result<Message, RepeError> {
+        let s: Spec = serde_json::from_slice(&req.body).map_err(RepeError::from)?;
+        let mut m = Message::builder().body_bytes(fill(s.blen, s.seed)).build();
+        m.header.version = s.version;
+        m.header.notify = s.notify;
+        m.header.reserved = s.reserved;
+        m.header.id = s.id;
+        m.header.query_format = s.qf;
+        m.header.body_format = s.bf;
+        m.header.ec = s.ec;
+        if s.own_query > 0 {
+            m.query = fill(s.own_query, s.seed ^ 0x51);
+            m.header.query_length = m.query.len() as u64;
+            m.header.length = 48 + m.header.query_length + m.header.body_length;
+        }
+        Ok(m)
+    }
+}
+
+fn wd() -> Duration {
+    if failure_seen() { Duration::from_millis(800) } else { Duration::from_secs(10) }
+}
+
+fn path_of(c: &NetCase) -> String {
+    let mut p = String::from("/p");
+    while p.len() < c.qlen.max(2) {
+        p.push((b'a' + (p.len() % 26) as u8) as char);
+    }
+    p
+}
+
+pub fn check(c: &NetCase) -> CheckResult {
+    let body = fill(c.blen, c.seed);
+    match c.endpoint {
+        Endpoint::Client | Endpoint::AsyncClient | Endpoint::WsClient => {
+            let path = path_of(c);
+            let got: Frame = block_on(async {
+                let (listener, addr) = listen().await.map_err(|e| Fail::new("harness-listen", e.to_string()))?;
+                let (b2, p2, c2) = (body.clone(), path.clone(), c.clone());
+                match c.endpoint {
+                    Endpoint::Client => {
+                        let a = addr.to_string();
+                        let cl = tokio::task::spawn_blocking(move || Client::connect(a)).await.unwrap().map_err(|e| Fail::new("harness-connect", e.to_string()))?;
+                        let mut io = accept_tcp(&listener).await.map_err(|e| Fail::new("harness-accept", e.to_string()))?;
+                        let call = tokio::task::spawn_blocking(move || {
+                            if c2.notify {
+                                cl.notify_with_formats(&p2, c2.qf, Some(&b2), c2.bf).map(|_| ())
+                            } else {
+                                cl.call_with_formats_and_timeout(&p2, c2.qf, Some(&b2), c2.bf, Duration::from_secs(20)).map(|_| ())
+                            }
+                        });
+                        let f = tokio::time::timeout(wd(), io.recv()).await.map_err(|_| Fail::new("no-frame", "client sent nothing"))?.map_err(|e| Fail::new("bad-frame", e.to_string()))?.ok_or_else(|| Fail::new("no-frame", "eof"))?;
+                        if !c.notify {
+                            let _ = io.send(&response_frame(&f, 0, 2, b"1")).await;
+                        }
+                        let _ = call.await;
+                        Ok::<_, Fail>(f)
+                    }
+                    Endpoint::AsyncClient => {
+                        let cl = AsyncClient::connect(addr).await.map_err(|e| Fail::new("harness-connect", e.to_string()))?;
+                        let mut io = accept_tcp(&listener).await.map_err(|e| Fail::new("harness-accept", e.to_string()))?;
+                        let call = tokio::spawn(async move {
+                            if c2.notify {
+                                cl.notify_with_formats(&p2, c2.qf, Some(&b2), c2.bf).await.map(|_| ())
+                            } else {
+                                cl.call_with_formats_and_timeout(&p2, c2.qf, Some(&b2), c2.bf, Duration::from_secs(20)).await.map(|_| ())
+                            }
+                        });
+                        let f = tokio::time::timeout(wd(), io.recv()).await.map_err(|_| Fail::new("no-frame", "client sent nothing"))?.map_err(|e| Fail::new("bad-frame", e.to_string()))?.ok_or_else(|| Fail::new("no-frame", "eof"))?;
+                        if !c.notify {
+                            let _ = io.send(&response_frame(&f, 0, 2, b"1")).await;
+                        }
+                        let _ = call.await;
+                        Ok(f)
+                    }
+                    _ => {
+                        let url = format!("ws://{addr}");
+                        let (cl, io) = tokio::join!(WebSocketClient::connect(&url), accept_ws(&listener));
+                        let cl = cl.map_err(|e| Fail::new("harness-connect", e.to_string()))?;
+                        let mut io = io.map_err(|e| Fail::new("harness-accept", e.to_string()))?;
+                        let call = tokio::spawn(async move {
+                            if c2.notify {
+                                cl.notify_with_formats(&p2, c2.qf, Some(&b2), c2.bf).await.map(|_| ())
+                            } else {
+                                cl.call_with_formats_and_timeout(&p2, c2.qf, Some(&b2), c2.bf, Duration::from_secs(20)).await.map(|_| ())
+                            }
+                        });
+                        let f = tokio::time::timeout(wd(), io.recv()).await.map_err(|_| Fail::new("no-frame", "client sent nothing"))?.map_err(|e| Fail::new("bad-frame", e.to_string()))?.ok_or_else(|| Fail::new("no-frame", "eof"))?;
+                        if !c.notify {
+                            let _ = io.send(&response_frame(&f, 0, 2, b"1")).await;
+                        }
+                        let _ = call.await;
+                        Ok(f)
+                    }
+                }
+            })?;
+            let want = codec::encode_frame(
+                &OHeader {
+                    spec: codec::MAGIC,
+                    version: 1,
+                    notify: c.notify as u8,
+                    id: got.header.id,
+                    query_format: c.qf,
+                    body_format: c.bf,
+                    ..OHeader::default()
+                },
+                path.as_bytes(),
+                &body,
+            );
+            ensure!(
+                got.raw == want,
+                format!("{:?}-request-bytes", c.endpoint),
+                "{:?}: {}",
+                c.endpoint,
+                diff_msg("request on the wire vs layout table", &got.raw, &want)
+            );
+            Ok(CaseInfo::new(c.blen > 0).class(format!("{:?}", c.endpoint)).class(if c.notify { "notify" } else { "call" }))
+        }
+        Endpoint::Server | Endpoint::AsyncServer | Endpoint::WsServer => {
+            let router = Router::new().with_erased_handler("/prep", Arc::new(Prepared));
+            let spec = Spec {
+                version: c.version,
+                notify: c.resp_notify,
+                reserved: c.reserved,
+                id: c.resp_id,
+                qf: c.qf,
+                bf: c.bf,
+                ec: c.ec,
+                own_query: c.own_query,
+                blen: c.blen,
+                seed: c.seed,
+            };
+            let req = frame_with(77, 0, b"/prep", 1, &serde_json::to_vec(&spec).unwrap(), 2, 0);
+            let query = if c.own_query > 0 { fill(c.own_query, c.seed ^ 0x51) } else { b"/prep".to_vec() };
+            let want = codec::encode_frame(
+                &OHeader {
+                    spec: codec::MAGIC,
+                    version: c.version,
+                    notify: c.resp_notify,
+                    reserved: c.reserved,
+                    id: c.resp_id,
+                    query_format: c.qf,
+                    body_format: c.bf,
+                    ec: c.ec,
+                    ..OHeader::default()
+                },
+                &query,
+                &body,
+            );
+            let got: Vec<u8> = match c.endpoint {
+                Endpoint::Server => {
+                    let server = Server::new(router);
+                    let l = server.listen("127.0.0.1:0").map_err(|e| Fail::new("harness-listen", e.to_string()))?;
+                    let addr = l.local_addr().unwrap();
+                    std::thread::spawn(move || {
+                        let _ = server.serve(l);
+                    });
+                    block_on(raw_roundtrip(addr, req, want.len()))?
+                }
+                Endpoint::AsyncServer => block_on(async {
+                    let l = AsyncServer::listen("127.0.0.1:0").await.map_err(|e| Fail::new("harness-listen", e.to_string()))?;
+                    let addr = l.local_addr().unwrap();
+                    let srv = tokio::spawn(async move {
+                        let _ = AsyncServer::new(router).serve(l).await;
+                    });
+                    let r = raw_roundtrip(addr, req, want.len()).await;
+                    srv.abort();
+                    r
+                })?,
+                _ => block_on(async {
+                    let shared = WebSocketServer::new(router).into_shared();
+                    let conn = dws::connect(&shared, 1 << 16).await;
+                    let mut io = conn.io;
+                    io.send(&req).await.map_err(|e| Fail::new("harness-send", e.to_string()))?;
+                    let raw = tokio::time::timeout(wd(), io.recv_raw()).await.map_err(|_| Fail::new("no-frame", "no response"))?.map_err(|e| Fail::new("bad-frame", e.to_string()))?.ok_or_else(|| Fail::new("no-frame", "eof"))?;
+                    io.close().await;
+                    Ok::<_, Fail>(raw)
+                })?,
+            };
+            ensure!(
+                got == want,
+                format!("{:?}-response-bytes", c.endpoint),
+                "{:?} (own query {} bytes): {}",
+                c.endpoint,
+                c.own_query,
+                diff_msg("response on the wire vs layout table", &got, &want)
+            );
+            Ok(CaseInfo::new(c.own_query > 0 || c.blen > 0)
+                .class(format!("{:?}", c.endpoint))
+                .class(if c.own_query > 0 { "own-query" } else { "echo" }))
+        }
+    }
+}
+
+async fn raw_roundtrip(addr: std::net::SocketAddr, req: Vec<u8>, want_len: usize) -> Result<Vec<u8>, Fail> {
+    let mut s = tokio::net::TcpStream::connect(addr).await.map_err(|e| Fail::new("harness-connect", e.to_string()))?;
+    s.write_all(&req).await.map_err(|e| Fail::new("harness-send", e.to_string()))?;
+    let _ = s.shutdown().await;
+    let mut got = Vec::new();
+    let _ = tokio::time::timeout(wd(), s.read_to_end(&mut got)).await;
+    let _ = want_len;
+    Ok(got)
+}
+
+fn net_case() -> BoxedStrategy<NetCase> {
+    (
+        prop::sample::select(vec![Endpoint::Client, Endpoint::AsyncClient, Endpoint::WsClient, Endpoint::Server, Endpoint::AsyncServer, Endpoint::WsServer]),
+        any::<bool>(),
+        (any_u16_mix(), any_u16_mix()),
+        (prop_oneof![2usize..40, 40usize..300], payload_len(70_000), any::<u64>()),
+        (any_u8_mix(), prop_oneof![Just(0u8), any_u8_mix()], any_u32_mix(), any_u64_mix(), any_u32_mix()),
+        prop_oneof![3 => Just(0usize), 2 => 1usize..64, 1 => 64usize..5000],
+    )
+        .prop_map(|(endpoint, notify, (qf, bf), (qlen, blen, seed), (version, resp_notify, reserved, resp_id, ec), own_query)| NetCase {
+            endpoint,
+            notify,
+            qf,
+            bf,
+            qlen,
+            blen,
+            seed,
+            version,
+            resp_notify,
+            reserved,
+            resp_id,
+            ec,
+            own_query,
+        })
+        .boxed()
+}
+
+pub fn run(ctx: &Ctx, rep: &Report) {
+    run_prop(ctx, rep, "net-routes", ctx.tier.pick(900, 15_000), &|| net_case(), &check);
+}
+
+pub fn replay(sub: &str, case: &Value) -> Result<(), Fail> {
+    match sub {
+        "net-routes" => replay_case::<NetCase>(case, &check),
+        _ => Err(Fail::new("replay-unknown-sub", sub.to_string())),
+    }
 }
